@@ -39,6 +39,8 @@ type Options struct {
 	Mutations     bool // allow mutation operations
 	ForceName     bool // always name the operation
 	Defer         bool // add @defer to fragments
+	NoDeferLabels bool // never give @defer a label
+	UniqueKeys    bool // every response key at most once per response-object level
 	NoVariables   bool
 	Simple        bool // no duplicate/overlapping selections, fragments only on the enclosing object type
 	NoVarInObject bool
@@ -65,6 +67,9 @@ type gen struct {
 	argText map[string]string // field name → argument text used when unaliased
 	feat    map[string]bool
 	deferN  int
+	// underRefinement > 0 while generating below a type-refining fragment of an abstract-typed
+	// position (at any depth)
+	underRefinement int
 }
 
 type varDef struct {
@@ -277,16 +282,35 @@ func (g *gen) deferDir(label string) string {
 	if !g.o.Defer || rapid.IntRange(0, 2).Draw(g.t, label+"defer") != 0 {
 		return ""
 	}
+	if g.underRefinement > 0 && !g.allow("defer-under-abstract-refinement") {
+		return ""
+	}
 	g.deferN++
 	g.feat["defer"] = true
-	switch rapid.IntRange(0, 5).Draw(g.t, label+"deferk") {
+	switch rapid.IntRange(0, 6).Draw(g.t, label+"deferk") {
 	case 0:
+		if g.o.NoDeferLabels {
+			break
+		}
+		g.feat["defer-label"] = true
 		return fmt.Sprintf(" @defer(label: \"d%d\")", g.deferN)
 	case 1:
 		g.feat["defer-if-false"] = true
 		return " @defer(if: false)"
 	case 2:
+		if g.o.NoDeferLabels {
+			return " @defer(if: true)"
+		}
+		g.feat["defer-label"] = true
 		return fmt.Sprintf(" @defer(if: true, label: \"d%d\")", g.deferN)
+	case 3:
+		if g.o.NoVariables {
+			break
+		}
+		v := varDef{name: g.next("d"), typ: "Boolean!", present: true, value: rapid.Bool().Draw(g.t, label+"deferv")}
+		g.vars = append(g.vars, v)
+		g.feat["defer-if-variable"] = true
+		return fmt.Sprintf(" @defer(if: $%s)", v.name)
 	}
 	return " @defer"
 }
@@ -326,7 +350,7 @@ func (g *gen) selSetL(def *ast.Definition, depth int, label string, inAbstractFr
 			if rapid.IntRange(0, 5).Draw(g.t, label+"tal") == 0 && g.allow("typename-alias") {
 				s = g.next("t") + ": __typename"
 			}
-			if g.o.Simple && s == "__typename" {
+			if (g.o.Simple || g.o.UniqueKeys) && s == "__typename" {
 				if lv.keys[s] {
 					continue
 				}
@@ -346,7 +370,15 @@ func (g *gen) selSetL(def *ast.Definition, depth int, label string, inAbstractFr
 			if target.Kind != ast.Object {
 				g.feat["fragment-on-abstract"] = true
 			}
+			// dynamic scope: inside a type-refining fragment of an abstract-typed position
+			refines := def.Kind != ast.Object && target != def
+			if refines {
+				g.underRefinement++
+			}
 			body := g.selSetL(target, depth+1, label+"f", target.Kind != ast.Object, lv)
+			if refines {
+				g.underRefinement--
+			}
 			switch rapid.IntRange(0, 3).Draw(g.t, label+"fragk") {
 			case 0:
 				name := g.next("F")
@@ -382,7 +414,7 @@ func (g *gen) selSetL(def *ast.Definition, depth int, label string, inAbstractFr
 				alias = g.next("a")
 				g.feat["alias"] = true
 			}
-			if g.o.Simple && alias == "" {
+			if (g.o.Simple || g.o.UniqueKeys) && alias == "" {
 				if lv.keys[f.Name] {
 					continue
 				}
@@ -421,7 +453,7 @@ func (g *gen) selSetL(def *ast.Definition, depth int, label string, inAbstractFr
 			}
 			parts = append(parts, s)
 			// duplicate / overlapping occurrence of the same response key
-			if rapid.IntRange(0, 7).Draw(g.t, label+"dup") == 0 && !g.o.Simple {
+			if rapid.IntRange(0, 7).Draw(g.t, label+"dup") == 0 && !g.o.Simple && !g.o.UniqueKeys {
 				if composite && alias == "" && g.budget > 0 && lv.rootKind == ast.Object && !inAbstractFragment && (ft.Kind == ast.Object || g.allow("overlapping-abstract-field")) {
 					base := f.Name
 					if len(f.Arguments) > 0 {
